@@ -56,14 +56,18 @@ def replay(ctx: Ctx, pid: str, ob: Obj, vecs):
     for v in vecs:
         o = ob.make()
         content = {1: [], 2: []}
+        order = []          # first-insertion order of the present keys (part of a mapping's state; the model abstracts from it)
         for step, op in enumerate(v["hist"]):
             k, kind = op["k"], op["op"]
             try:
                 if kind == "set":
                     content[k] = list(op["s"])
+                    if k not in order:
+                        order.append(k)
                     ob.set(o, k, [ob.item(x) for x in op["s"]])
                 elif kind == "del":
                     content[k] = []
+                    order.remove(k)
                     ob.delete(o, k)
                 elif kind == "inner":
                     content[k].append(op["v"])
@@ -74,7 +78,7 @@ def replay(ctx: Ctx, pid: str, ob: Obj, vecs):
                 else:
                     got = _norm(ob.read(o))
                     fresh = ob.make()
-                    for kk in (1, 2):
+                    for kk in order:
                         if content[kk]:
                             ob.set(fresh, kk, [ob.item(x) for x in content[kk]])
                     want = _norm(ob.read(fresh))
